@@ -76,6 +76,8 @@ class Monitor:
         self.seen = {}
         self.impl, self.backend, self.nclasses = reflect_implementations()
         self.entered = set()
+        self.cached_entered = []  # Cached objects whose evaluate implementation ran (this op)
+        self.cache_lookups = set()  # (id(evaluatable), id(cache)) of the CacheExistsRequests seen (this op)
         self.violation = None
 
     def handlers(self, only=None):
@@ -114,6 +116,8 @@ class Monitor:
                         e[2] += 1
                         break
             entry = [op, getattr(request, "cache", None), 0]
+            if op == "cache-exists":
+                self.cache_lookups.add((id(request.evaluatable), id(request.cache)))
             self.stack.append(entry)
             try:
                 return default(request)
@@ -131,6 +135,8 @@ class Monitor:
             op, cls = hit
             me = frame.f_locals.get(code.co_varnames[0]) if code.co_argcount else None
             self.entered.add((op, cls))
+            if cls == "Cached" and op == "evaluate" and me is not None:
+                self.cached_entered.append(me)
             if not any(e[0] == op and e[1] is me for e in self.stack) and self.violation is None:
                 self.violation = ("implementation-entered-without-request", {"operation": op, "type": cls, "object": repr(me)[:120]})
             return
@@ -194,6 +200,8 @@ class C18(HistoryProperty):
         ops = gen_history(rng, cfg, spec, ops_kinds=("evaluate", "evaluate", "evaluate", "call", "validate", "keys", "explain"))
         targets = [n["id"] for n in spec["nodes"] if n["k"] == "dataset" and n["id"] not in spec["roots"]]
         for op in ops:
+            if rng.random() < 0.15:
+                op["o"] = dict(op["o"], LABREA={"CACHE": {rng.choice(["DISABLED", "DISABLE"]): True}})
             x = rng.random()
             if x < 0.3:
                 op["mode"] = "plain"
@@ -252,6 +260,7 @@ class C18(HistoryProperty):
                     if mode == "pass":
                         did_pass = True
                         mon.violation = None
+                        mon.cached_entered, mon.cache_lookups = [], set()
                         mon.active = True
                         with lrt.handle(mon.handlers(op.get("only"))):
                             if op.get("only") is None:
@@ -265,6 +274,13 @@ class C18(HistoryProperty):
                                 sys.setprofile(None)
                         mon.active = False
                         res.bump("passthrough_ops")
+                        if op.get("only") is None and not mon.violation and not inner:
+                            # every evaluation of a Cached node looks its cache up THROUGH a request (whatever the
+                            # switches in the options say: honouring them is the handlers' business)
+                            for c in mon.cached_entered:
+                                if (id(c.evaluatable), id(c.cache)) not in mon.cache_lookups:
+                                    mon.violation = ("cached-evaluated-without-cache-request", {"cached": repr(c)[:120]})
+                                    break
                         if mon.violation and op.get("only") is None:
                             res.violate(mon.violation[0], op_index=i, node=op["node"], o=op["o"], op_kind=op["op"], **mon.violation[1])
                             break
